@@ -43,9 +43,9 @@ def main(argv=None):
             with open(args.replay) as f:
                 rp = json.load(f)
             entry["replay"](chk, rp)
+            return chk.finish(name="replay-" + args.prop)      # a replay does not overwrite the check's evidence
         elif args.selftest:
             return entry["selftest"](chk)
-            return chk.finish(name="replay-" + args.prop)      # a replay does not overwrite the check's evidence
         else:
             entry["run"](chk, args.tier)
         return chk.finish()
